@@ -45,6 +45,8 @@ def rule_own_dag(ctx: Ctx) -> None:
         for fn in m.functions():
             body_calls = calls_in(fn, nested=False)
             helpers = {call_attr(c) for c in body_calls if (call_name(c) or "").startswith("self.")}
+            from ..core import unroll_literal_loops as _unroll
+            helpers |= {call_attr(c) for c in calls_in(_unroll(fn)) if (call_name(c) or "").startswith("self.")}
             if m.rel == DAG:
                 from ..rules import nodeindex as _ni
                 _reach = _ni.index_helpers(repo)
@@ -509,7 +511,29 @@ def run(ctx: Ctx) -> None:
     ctx.floor("edge.keys", 4)
 
 
+_REPLACE_BLOCKS = ("        # remove entries related to old_operation\n"
+                   "        for label in old_operation.labels:\n"
+                   "            self._node_dict_remove(label, node)\n"
+                   "        self._node_dict_remove(type(old_operation).__name__, node)\n"
+                   "        self._node_dict_remove(old_operation.parse_q_reg_types(), node)\n"
+                   "\n"
+                   "        # add entries related to new_operation\n"
+                   "        for label in new_operation.labels:\n"
+                   "            self._node_dict_append(label, node)\n"
+                   "        self._node_dict_append(type(new_operation).__name__, node)\n"
+                   "        self._node_dict_append(new_operation.parse_q_reg_types(), node)\n")
+_REPLACE_TABLE = ("        for operation, update_entry in (\n"
+                  "            (old_operation, self._node_dict_remove),\n"
+                  "            (new_operation, self._node_dict_append),\n"
+                  "        ):\n"
+                  "            for label in operation.labels:\n"
+                  "                update_entry(label, node)\n"
+                  "            update_entry(type(old_operation).__name__, node)\n"
+                  "            update_entry(operation.parse_q_reg_types(), node)\n")
+
+
 KNOCKOUTS = [
+    Knockout("replace-op-table-driven-old-type-key", DAG, sub_once(_REPLACE_BLOCKS, _REPLACE_TABLE), "sibling.nodekeys", "old"),
     Knockout("register-gap-accepted", DAG, sub_once("        elif register > len(self._registers[reg_type]):", "        elif register > len(self._registers[reg_type]) + 1:") if False else sub_once("        if register == len(self._registers[reg_type]):\n            self._registers[reg_type].append(1)", "        if register >= len(self._registers[reg_type]):\n            self._registers[reg_type].append(1)"), "reg.create", "register = n+1"),
     Knockout("wire-created-when-present", DAG, sub_once('        if f"{reg_type}{register}_in" not in self.dag.nodes:', '        if f"{reg_type}{register}_in" in self.dag.nodes:'), "reg.create", "absent"),
     Knockout("validate-source-test-inverted", DAG, sub_once('            if not isinstance(self.dag.nodes[input_node]["op"], ops.Input):', '            if isinstance(self.dag.nodes[input_node]["op"], ops.Input):'), "validate.shape", "Input test polarity"),
